@@ -22,7 +22,7 @@ ASSUMPTIONS = [
     "Output case is compared case-insensitively (the property fixes which letters are exchanged, not the case).",
     "Translation input that is already encoded with a DNA alphabet (ACGT, ACGTN) is re-targeted by the library to the codon alphabet and is refused when that is not possible: for such input the oracle is 'the same protein as for the text, or an exception' (counted under raised_allowed), never a different protein.",
 ]
-REQUIRED_CLASSES = ["lower-case", "contains-N", "empty-row", "ascii", "ACGT", "ACGTn", "minus-strand", "length-one-interval", "stop-codon", "all-64-codons", "many-intervals", "genomic", "translate-encoded-input", "lazily-read-entries", "indexed-fasta-in-another-order", "intervals-passed-through-clip-replace-slice-or-concatenate"]
+REQUIRED_CLASSES = ["lower-case", "contains-N", "empty-row", "ascii", "ACGT", "ACGTn", "minus-strand", "length-one-interval", "stop-codon", "all-64-codons", "many-intervals", "genomic", "translate-encoded-input", "lazily-read-entries", "indexed-fasta-in-another-order", "intervals-passed-through-clip-replace-slice-concatenate-or-extension"]
 BOUNDS = {"quick": "revcomp: all 11110 strings of length <= 4 in ASCII and ACGTn; translation: 64 codons + 4096 pairs + 4096 strided triples; 300 sampled per family",
           "thorough": "same exhaustive cores in all three encodings; all 262144 codon triples; 10000 sampled per family"}
 BUDGET_S = {"quick": 200, "thorough": 1500}
@@ -72,7 +72,7 @@ def classify(case):
         if case.get("fasta_order"):
             cl.append("indexed-fasta-in-another-order")
         if case.get("via") and any(z == "-" for _, _, _, z in case["ivs"]):
-            cl.append("intervals-passed-through-clip-replace-slice-or-concatenate")
+            cl.append("intervals-passed-through-clip-replace-slice-concatenate-or-extension")
         nontrivial = len({z for _, _, _, z in case["ivs"]}) == 2
     elif k == "translate":
         if any("*" in "".join(CODON[r[i:i + 3].upper()] for i in range(0, len(r), 3)) for r in rows):
@@ -170,6 +170,11 @@ def check(case, stats=None):
             elif via == "concat":
                 k_ = max(1, len(ivs) // 2)
                 gi = np.concatenate([gi[:k_], gi[k_:]]) if len(ivs) >= 2 else np.concatenate([gi])
+            elif via == "extend":
+                # extension along the strand to a fixed length (start kept on '+', stop kept on '-', clipped to the chromosome), then extraction
+                L_ = case.get("L", 3)
+                gi = gi.extended_to_size(L_)
+                ivs = [[c, a, min(a + L_, len(seqs[c])), z] if z == "+" else [c, max(b - L_, 0), b, z] for c, a, b, z in ivs]
             got = [x.upper() for x in gs[gi].tolist()]
             want = [(revcomp(seqs[c][a:b]) if z == "-" else seqs[c][a:b]).upper() for c, a, b, z in ivs]
             if got != want:
@@ -177,6 +182,8 @@ def check(case, stats=None):
                 return [Failure("C14:genomic-sequence-stranded" + (":after-" + via if via else ""), {"n_intervals": len(ivs), "first_wrong_row": bad,
                                                                   "expected": want[:6], "actual": got[:6]})]
             if case.get("fasta_order"):
+                ivs = case["ivs"]          # (the intervals as given: no extension on this route)
+                want = [(revcomp(seqs[c][a:b]) if z == "-" else seqs[c][a:b]).upper() for c, a, b, z in ivs]
                 # the same extraction from a genome backed by an indexed FASTA whose record order differs from the genome's label order
                 import tempfile
                 order = [n for n in case["fasta_order"] if n in seqs] + [n for n in seqs if n not in case["fasta_order"]]
@@ -337,7 +344,7 @@ def sampled_case(draw, kind, maxlen):
             c = draw(st.sampled_from(names))
             a = draw(st.integers(0, len(seqs[c]) - 1))
             ivs.append([c, a, draw(st.integers(a + 1, len(seqs[c]))), draw(st.sampled_from("+-"))])
-        case = {"kind": kind, "seqs": seqs, "ivs": ivs, "via": draw(st.sampled_from([None, None, "clip", "replace", "slice", "concat"]))}
+        case = {"kind": kind, "seqs": seqs, "ivs": ivs, "via": draw(st.sampled_from([None, None, "clip", "replace", "slice", "concat", "extend"])), "L": draw(st.integers(1, 12))}
         if kind == "genomic" and draw(st.booleans()):
             case["fasta_order"] = draw(st.permutations(list(names)))
             case["sort_names"] = draw(st.booleans())
